@@ -121,11 +121,18 @@ def gen_T16():
     need('return s.lower()' in ast.unparse(find_def(tree('src/unpreserve.py'), 'normalizeCommand', 'Reader')),
          'normalizeCommand changed')
 
+    # IrcChannelCreator.__init__: does the record start from IrcChannel()'s default anticapabilities, or from an empty set?
+    ci = ast.unparse(find_def(d, '__init__', 'IrcChannelCreator'))
+    need('self.c = IrcChannel()' in ci, 'IrcChannelCreator.__init__ no longer builds IrcChannel(): ' + ci)
+    keeps_defaults = 'self.c.capabilities.clear()' not in ci
+    need(ci.count('capabilities') == (0 if keeps_defaults else 1), 'IrcChannelCreator.__init__ touches capabilities in an unknown way')
     out = 'Definition FOLD : list (N * N) := %s.\n' % clist('(%d, %d)' % (ord(x), ord(y)) for x, y in fold)
     out += 'Definition WHITESPACE : list N := %s.\n' % clist(cN(i) for i in ws)
     out += 'Definition CHANTYPES : list N := %s.\n' % cstr(defaults[0])
     out += 'Definition CHANNELLEN : nat := %d.\n' % defaults[1]
     out += 'Definition DEFAULT_OFF : list (list N) := %s.\n' % clist(cstr(x) for x in off)
+    out += 'Definition CHAN_CREATOR_DEFAULTS : bool := %s.  (* IrcChannelCreator starts from the default anticapabilities *)\n' % (
+        'true' if keeps_defaults else 'false')
     out += '(* writer keywords, from the format strings of the preserve/flush methods *)\n'
     out += 'Definition WH_user : list N := %s.\nDefinition WH_channel : list N := %s.\nDefinition WH_network : list N := %s.\n' % (
         cstr(hu), cstr(hc), cstr(hn))
